@@ -8,10 +8,14 @@ Inductive c13_case :=
 | MintFn (prev blocks decrease result : Z)      (* utils.GetMintForBlock *)
 | Block (p : mparams)
         (pre_fee pre_dev pre_stip pre_mod pre_supply : Z) (pre_last : option Z)
-        (post_fee post_dev post_stip post_mod post_supply : Z) (post_rec : option Z).
+        (post_fee post_dev post_stip post_mod post_supply : Z) (post_rec : option Z)
           (* post_rec: MintedBlock stored for this height, if any *)
+| BlockSameReceiver (p : mparams)      (* the stipend address is the developer-grants pool: one account, two shares *)
+        (pre_fee pre_dev pre_mod pre_supply : Z) (pre_last : option Z)
+        (post_fee post_dev post_mod post_supply : Z) (post_rec : option Z).
 
 Definition accts : maccts := {| a_fee := 1; a_dev := 2; a_stip := 3; a_mod := 4 |}%N.
+Definition accts_same : maccts := {| a_fee := 1; a_dev := 2; a_stip := 2; a_mod := 4 |}%N.
 
 Definition oz_eqb (a b : option Z) : bool :=
   match a, b with Some x, Some y => x =? y | None, None => true | _, _ => false end.
@@ -24,5 +28,11 @@ Definition c13_ok (c : c13_case) : bool :=
     let r := block_mint accts p s in
     let b := m_bank (r_state r) in
     (bal b 1%N =? f') && (bal b 2%N =? d') && (bal b 3%N =? st') && (bal b 4%N =? m') &&
+    (m_supply (r_state r) =? sup') && oz_eqb (m_last (r_state r)) rec'
+  | BlockSameReceiver p f d m sup last f' d' m' sup' rec' =>
+    let s := {| m_bank := [(1%N, f); (2%N, d); (4%N, m)]; m_supply := sup; m_last := last |} in
+    let r := block_mint accts_same p s in
+    let b := m_bank (r_state r) in
+    (bal b 1%N =? f') && (bal b 2%N =? d') && (bal b 4%N =? m') &&
     (m_supply (r_state r) =? sup') && oz_eqb (m_last (r_state r)) rec'
   end.
